@@ -38,6 +38,11 @@ func Exec(w []string) (ans string, mine bool) {
 	}
 	switch w[0] {
 	case "frame", "rows", "hdr", "body", "falloc", "newrow":
+	case "alloc":
+		if len(w) < 2 || w[1] != "rows" {
+			return "", false
+		}
+		return execAllocRows(w)
 	case "deep":
 		if len(w) != 3 {
 			return "bad-op", true
@@ -460,6 +465,7 @@ func Gen(r *vh.Rng, tier string, emit emitFn) {
 	}
 	g.headers(mult)
 	g.allocs(mult)
+	g.allocRowsGen(mult)
 	for _, n := range primFuncs {
 		emit("prim "+n, primAnswer(n), "prim", true)
 	}
